@@ -36,6 +36,8 @@ def job_step(kind, tier, seed):
             A += [R['rep'] == 1, R['lp'] == 0]
         elif kind == 'loop':
             A += [R['rep'] == 0, R['lp'] == 1]
+        elif kind == 'both':
+            A += [R['rep'] == 1, R['lp'] == 1]
         else:
             A += [R['rep'] == 0, R['lp'] == 0]
         st.pc += A
@@ -51,20 +53,28 @@ def job_step(kind, tier, seed):
             exp['rep'] = z3.If(c == 0, z3.BitVecVal(0, 8), R['rep'])
             exp['pc'] = z3.If(c == 0, pc + 1, pc)
             sample = 'single-instruction repeat, one cycle: repc > 0 -> repc-1 and the same instruction is fetched again; repc == 0 -> repeat ends and pc advances (so the instruction runs repc+1 times by induction)'
-        elif kind == 'loop':
+        elif kind in ('loop', 'both'):
             def frame(f):
                 out = R['bkrep_stack.%s[3]' % f]
                 for k in range(2, -1, -1):
                     out = z3.If(R['bcn'] == k + 1, R['bkrep_stack.%s[%d]' % (f, k)], out)
                 return out
-            at_end = frame('end') + 1 == pc + 1
+            nxt = pc + 1
+            if kind == 'both':
+                # the repeat is served first: while it is pending the instruction is fetched again and the block end is not
+                # looked at; the block-end check applies to the cycle that finishes the repeat
+                c = R['repc']
+                exp['repc'] = z3.If(c == 0, c, c - 1)
+                exp['rep'] = z3.If(c == 0, z3.BitVecVal(0, 8), R['rep'])
+                nxt = z3.If(c == 0, pc + 1, pc)
+            at_end = frame('end') + 1 == nxt
             last = frame('lc') == 0
-            exp['pc'] = z3.If(z3.And(at_end, z3.Not(last)), frame('start'), pc + 1)
+            exp['pc'] = z3.If(z3.And(at_end, z3.Not(last)), frame('start'), nxt)
             exp['bcn'] = z3.If(z3.And(at_end, last), R['bcn'] - 1, R['bcn'])
             exp['lp'] = z3.If(z3.And(at_end, last), z3.If(R['bcn'] - 1 != 0, alu.ONE16, alu.ZERO16), R['lp'])
             for k in range(4):
                 exp['bkrep_stack.lc[%d]' % k] = z3.If(z3.And(at_end, z3.Not(last), R['bcn'] == k + 1), R['bkrep_stack.lc[%d]' % k] - 1, R['bkrep_stack.lc[%d]' % k])
-            sample = 'block repeat, one cycle whose instruction is the last of the innermost block: lc > 0 -> lc-1 and jump to start; lc == 0 -> frame popped, in-loop flag = (bcn != 0), fall through; elsewhere pc+1 and nothing changes'
+            sample = ('a repeated instruction that is also the last of a block: the repeat completes first, then the block iterates; ' if kind == 'both' else '') + 'block repeat, one cycle whose instruction is the last of the innermost block: lc > 0 -> lc-1 and jump to start; lc == 0 -> frame popped, in-loop flag = (bcn != 0), fall through; elsewhere pc+1 and nothing changes'
         else:
             exp['pc'] = pc + 1
             sample = 'no loop active: one cycle advances pc by the instruction length and touches no loop state'
@@ -247,6 +257,126 @@ def job_storestore(kind, tier, seed):
     return ck.export()
 
 
+def job_frame_rows(kind, tier, seed):
+    """(S) stand-alone specifications of bkrepsto / bkreprst: the frame array is a stack whose element 0 is the frame that
+    goes to / comes from memory; the other live frames shift by one. A round trip alone cannot see a wrong shift (the slot
+    a store vacates still holds the value a restore should move there), a task switch that restores *other* frames can."""
+    E = env()
+    ck = core.Check('C09', 'model_checking', tier, seed)
+    R = E.R()
+    inv = E.inv()
+    o, e = z3.BitVec('o', 16), z3.BitVec('e', 16)
+    dm0 = E.pre_dmem()
+    for op in ('sto', 'rst'):
+        if kind == 'memsp':
+            i = find(E, 'bkrep%s_memsp' % op, ())
+            areg = {'sp': z3.BoolVal(True)}
+        else:
+            i = find(E, 'bkrep%s' % op, ('ArRn2',))
+            k = fld(E, i, 0, o, e)
+            unit = R['arrn[3]']
+            for j in range(2, -1, -1):
+                unit = z3.If(k == j, R['arrn[%d]' % j], unit)
+            areg = {'r[%d]' % u: unit == u for u in range(8)}
+        addr = None
+        for f, c in areg.items():
+            addr = R[f] if addr is None else z3.If(c, R[f], addr)
+        A = inv + [E.match_pred(E.rows[i], o)]
+        try:
+            r = E.run_row(i, o, e, A)
+        except (Abort, UnwindBound) as x:
+            ck.inconclusive.append('bkrep%s %s: %r' % (op, kind, x))
+            continue
+        ck.ninstr += r['ninstr']
+        ck.nstates += 1
+        X = type('X', (), {'exits': r['exits']})()
+        asserts = kit.exit_cond(X, ('assert',))
+        others = kit.exit_cond(X, ('throw', 'abort', 'trap', 'ub', 'uaf'))
+        exp = dict(R)
+        lp, bcn = R['lp'] != 0, R['bcn']
+        F = lambda f, j: R['bkrep_stack.%s[%d]' % (f, j)]
+        if op == 'sto':
+            flag = (R['lp'] << 15) | z3.Extract(15, 0, z3.LShR(F('start', 0), 16)) | (z3.Extract(15, 0, z3.LShR(F('end', 0), 16)) << 8)
+            want_mem = dm0
+            for off, val in ((1, F('lc', 0)), (2, z3.Extract(15, 0, F('start', 0))), (3, z3.Extract(15, 0, F('end', 0))), (4, flag)):
+                want_mem = z3.Store(want_mem, addr - off, val)
+            for f in ('start', 'end', 'lc'):
+                for j in range(3):
+                    exp['bkrep_stack.%s[%d]' % (f, j)] = z3.If(z3.And(lp, z3.ULT(j + 1, bcn)), F(f, j + 1), F(f, j))
+            exp['bcn'] = z3.If(lp, bcn - 1, bcn)
+            exp['lp'] = z3.If(z3.And(lp, bcn - 1 == 0), alu.ZERO16, R['lp'])
+            delta = -4
+            must_assert = z3.BoolVal(False)
+            sample = 'bkrepsto: frame 0 (count, start, end, flag word with the in-loop bit and the address high bits) goes to the four words below the address register; the remaining live frames move down one slot, depth-1, in-loop flag = (depth != 0)'
+        else:
+            w = [z3.Select(dm0, addr + j) for j in range(4)]
+            valid = z3.Extract(15, 15, w[0]) == 1
+            want_mem = dm0
+            new0 = {'end': z3.Concat(z3.BitVecVal(0, 14), z3.Extract(9, 8, w[0]), w[1]), 'start': z3.Concat(z3.BitVecVal(0, 14), z3.Extract(1, 0, w[0]), w[2]), 'lc': w[3]}
+            for f in ('start', 'end', 'lc'):
+                exp['bkrep_stack.%s[0]' % f] = new0[f]
+                for j in range(1, 4):
+                    exp['bkrep_stack.%s[%d]' % (f, j)] = z3.If(z3.And(lp, z3.ULE(j, bcn)), F(f, j - 1), F(f, j))
+            exp['bcn'] = z3.If(lp, bcn + 1, z3.If(valid, z3.BitVecVal(1, 16), bcn))
+            exp['lp'] = z3.If(lp, R['lp'], z3.If(valid, alu.ONE16, R['lp']))
+            delta = 4
+            must_assert = z3.And(lp, z3.Or(z3.UGT(bcn, 3), z3.Not(valid)))
+            sample = 'bkreprst: the four words at the address register become frame 0; when a loop is active the live frames first move up one slot (a fifth level or an invalid saved flag is the deliberate assertion), otherwise a valid saved flag re-enters the loop at depth 1'
+        for f in areg:
+            exp[f] = z3.If(areg[f], R[f] + delta, R[f]) if len(areg) > 1 else R[f] + delta
+        g = [z3.Or(asserts, x) for x in c03.diff_goal(E.post_regs(r['st']), exp, R)[0]] if r['st'] is not None else [asserts]
+        if r['st'] is not None:
+            g.append(z3.Or(asserts, E.post_dmem(r['st']) == want_mem))
+        g += [asserts == must_assert, z3.Not(others), kit.obligations(type('X', (), {'oblig': r['oblig']})())]
+        ck.prove('Row[bkrep%s%s]' % (op, '_memsp' if kind == 'memsp' else ''), A, z3.And(*g), vars=c03.vars_of(R, {'o': o, 'e': e}), sample=sample)
+    return ck.export()
+
+
+def job_restorestore(kind, tier, seed):
+    """bkreprst ; bkrepsto from an arbitrary state: pushing a saved frame and saving it again is the identity on the
+    live frames, depth, flag, address register and memory (the order a task switch *into* a saved context exercises)"""
+    E = env()
+    ck = core.Check('C09', 'model_checking', tier, seed)
+    R = E.R()
+    inv = E.inv()
+    oa, ea, ob, eb = [z3.BitVec(n, 16) for n in ('o1', 'e1', 'o2', 'e2')]
+    if kind == 'memsp':
+        ia, ib = find(E, 'bkreprst_memsp', ()), find(E, 'bkrepsto_memsp', ())
+        extraB = []
+    else:
+        ia, ib = find(E, 'bkreprst', ('ArRn2',)), find(E, 'bkrepsto', ('ArRn2',))
+        extraB = [fld(E, ib, 0, ob, eb) == fld(E, ia, 0, oa, ea)]
+    # a loop is active with room for one more level; the saved frame is valid and canonical (high flag bits as bkrepsto writes them)
+    dm0 = E.pre_dmem()
+    pre = [R['lp'] == 1, z3.ULE(R['bcn'], 3)]
+    try:
+        ra, rb = c08.two(E, ck, ia, ib, oa, ea, ob, eb, inv + pre, [], extraB)
+    except (Abort, UnwindBound) as x:
+        ck.inconclusive.append('bkreprst;bkrepsto %s: %r' % (kind, x))
+        return ck.export()
+    cons = list(c08.CONS)
+    flagw = None
+    for ev in (ra['st'].log if ra['st'] is not None else []):
+        if ev[0] == 'R':
+            flagw = z3.Select(dm0, ev[2])
+            break
+    if flagw is None or rb is None or rb['st'] is None:
+        ck.inconclusive.append('bkreprst;bkrepsto %s: no returning path / no data read logged' % kind)
+        return ck.export()
+    canon = (flagw & 0x7CFC) == 0
+    asserted = kit.exit_cond(type('X', (), {'exits': ra['exits'] + rb['exits']})(), ('assert',))
+    post = E.post_regs(rb['st'])
+    live = []
+    for f in ('start', 'end', 'lc'):
+        for j in range(4):
+            live.append(z3.Implies(z3.ULT(j, R['bcn']), post['bkrep_stack.%s[%d]' % (f, j)] == R['bkrep_stack.%s[%d]' % (f, j)]))
+    skip = tuple(f for f in post if f.startswith('bkrep_stack'))
+    g = c08.same_all(E, post, R, skip) + live + [E.post_dmem(rb['st']) == dm0, c08.noexit(rb), kit.obligations(type('X', (), {'oblig': ra['oblig'] + rb['oblig']})())]
+    ck.prove('RestoreStore[%s]' % kind, inv + pre + cons + [canon, z3.Extract(15, 15, flagw) == 1], z3.And(*g), vars=c03.vars_of(R, {'o1': oa, 'o2': ob, 'flagword': flagw}),
+             sample='bkreprst ; bkrepsto (%s form) inside an active loop with a valid saved frame: the live frames, depth, in-loop flag, address register and data memory are as before' % ('[sp]' if kind == 'memsp' else '[ArRn2]'))
+    return ck.export()
+
+
 def _dispatch(fn, args):
     return fn(*args)
 
@@ -262,10 +392,11 @@ def run(tier, seed):
     n_max = 3 if tier == 'quick' else 6
     ck.bounds += ['whole programs: counts N = 0..%d enumerated, nesting depth 1..4 with count 1 per level, %s cycles stepped one Run(1) at a time' % (n_max, 'up to 20'), 'one-step and row obligations: no bound on values']
     ck.stubs += E.tabulated
-    jobs = [(job_step, (k, tier, seed)) for k in ('rep', 'loop', 'plain')] + [(job_rows, (tier, seed))]
+    jobs = [(job_step, (k, tier, seed)) for k in ('rep', 'loop', 'both', 'plain')] + [(job_rows, (tier, seed))]
     jobs += [(job_program, ('rep', n, tier, seed)) for n in range(n_max + 1)] + [(job_program, ('bkrep', n, tier, seed)) for n in range(n_max + 1)]
     jobs += [(job_program, ('nested', d, tier, seed)) for d in (1, 2, 3, 4)]
     jobs += [(job_storestore, (k, tier, seed)) for k in ('memsp', 'arrn')]
+    jobs += [(job_frame_rows, (k, tier, seed)) for k in ('memsp', 'arrn')] + [(job_restorestore, (k, tier, seed)) for k in ('memsp', 'arrn')]
     for r in core.pmap(_dispatch, jobs):
         if '__error__' in r:
             ck.engine_errors.append(r['__error__'])
